@@ -74,7 +74,7 @@ set_option maxHeartbeats 4000000 in
 theorem qinv_step_callSend (s s' : St) (f v : _) (hk : s.kind ≠ .bounded) (hq : QInv s) (hs : step s (.callSend f v) = some s') : QInv s' := by
   have hQ := hq
   obtain ⟨q1, q2, q3, q4, q5, q6, q7, q8, q9, q10, q11, q12, q13, q14, q15, q16, q17, q18, q19, q20⟩ := hq
-  simp only [step] at hs
+  simp only [step, emptyPc, pubPc] at hs
   repeat' (split at hs)
   all_goals (try simp at hs)
   all_goals (try contradiction)
@@ -85,7 +85,7 @@ set_option maxHeartbeats 4000000 in
 theorem qinv_step_woke (s s' : St) (f r : _) (hk : s.kind ≠ .bounded) (hq : QInv s) (hs : step s (.woke f r) = some s') : QInv s' := by
   have hQ := hq
   obtain ⟨q1, q2, q3, q4, q5, q6, q7, q8, q9, q10, q11, q12, q13, q14, q15, q16, q17, q18, q19, q20⟩ := hq
-  simp only [step] at hs
+  simp only [step, emptyPc, pubPc] at hs
   repeat' (split at hs)
   all_goals (try simp at hs)
   all_goals (try contradiction)
@@ -96,7 +96,7 @@ set_option maxHeartbeats 4000000 in
 theorem qinv_step_retSend (s s' : St) (f : _) (hk : s.kind ≠ .bounded) (hq : QInv s) (hs : step s (.retSend f) = some s') : QInv s' := by
   have hQ := hq
   obtain ⟨q1, q2, q3, q4, q5, q6, q7, q8, q9, q10, q11, q12, q13, q14, q15, q16, q17, q18, q19, q20⟩ := hq
-  simp only [step] at hs
+  simp only [step, emptyPc, pubPc] at hs
   repeat' (split at hs)
   all_goals (try simp at hs)
   all_goals (try contradiction)
@@ -107,7 +107,18 @@ set_option maxHeartbeats 4000000 in
 theorem qinv_step_callRecv (s s' : St) (f : _) (hk : s.kind ≠ .bounded) (hq : QInv s) (hs : step s (.callRecv f) = some s') : QInv s' := by
   have hQ := hq
   obtain ⟨q1, q2, q3, q4, q5, q6, q7, q8, q9, q10, q11, q12, q13, q14, q15, q16, q17, q18, q19, q20⟩ := hq
-  simp only [step] at hs
+  simp only [step, emptyPc, pubPc] at hs
+  repeat' (split at hs)
+  all_goals (try simp at hs)
+  all_goals (try contradiction)
+  all_goals (first | subst hs | (obtain ⟨_, hs⟩ := hs; subst hs))
+  all_goals (constructor <;> cq_close)
+
+set_option maxHeartbeats 4000000 in
+theorem qinv_step_callTry (s s' : St) (f : _) (hk : s.kind ≠ .bounded) (hq : QInv s) (hs : step s (.callTry f) = some s') : QInv s' := by
+  have hQ := hq
+  obtain ⟨q1, q2, q3, q4, q5, q6, q7, q8, q9, q10, q11, q12, q13, q14, q15, q16, q17, q18, q19, q20⟩ := hq
+  simp only [step, emptyPc, pubPc] at hs
   repeat' (split at hs)
   all_goals (try simp at hs)
   all_goals (try contradiction)
@@ -118,7 +129,7 @@ set_option maxHeartbeats 4000000 in
 theorem qinv_step_retRecv (s s' : St) (f v : _) (hk : s.kind ≠ .bounded) (hq : QInv s) (hs : step s (.retRecv f v) = some s') : QInv s' := by
   have hQ := hq
   obtain ⟨q1, q2, q3, q4, q5, q6, q7, q8, q9, q10, q11, q12, q13, q14, q15, q16, q17, q18, q19, q20⟩ := hq
-  simp only [step] at hs
+  simp only [step, emptyPc, pubPc] at hs
   repeat' (split at hs)
   all_goals (try simp at hs)
   all_goals (try contradiction)
@@ -129,7 +140,7 @@ set_option maxHeartbeats 4000000 in
 theorem qinv_step_ldLow (s s' : St) (f l : _) (hk : s.kind ≠ .bounded) (hq : QInv s) (hs : step s (.ldLow f l) = some s') : QInv s' := by
   have hQ := hq
   obtain ⟨q1, q2, q3, q4, q5, q6, q7, q8, q9, q10, q11, q12, q13, q14, q15, q16, q17, q18, q19, q20⟩ := hq
-  simp only [step] at hs
+  simp only [step, emptyPc, pubPc] at hs
   repeat' (split at hs)
   all_goals (try simp at hs)
   all_goals (try contradiction)
@@ -140,7 +151,7 @@ set_option maxHeartbeats 4000000 in
 theorem qinv_step_ldHigh (s s' : St) (f h : _) (hk : s.kind ≠ .bounded) (hq : QInv s) (hs : step s (.ldHigh f h) = some s') : QInv s' := by
   have hQ := hq
   obtain ⟨q1, q2, q3, q4, q5, q6, q7, q8, q9, q10, q11, q12, q13, q14, q15, q16, q17, q18, q19, q20⟩ := hq
-  simp only [step] at hs
+  simp only [step, emptyPc, pubPc] at hs
   repeat' (split at hs)
   all_goals (try simp at hs)
   all_goals (try contradiction)
@@ -151,7 +162,7 @@ set_option maxHeartbeats 4000000 in
 theorem qinv_step_rBuf (s s' : St) (f i x : _) (hk : s.kind ≠ .bounded) (hq : QInv s) (hs : step s (.rBuf f i x) = some s') : QInv s' := by
   have hQ := hq
   obtain ⟨q1, q2, q3, q4, q5, q6, q7, q8, q9, q10, q11, q12, q13, q14, q15, q16, q17, q18, q19, q20⟩ := hq
-  simp only [step] at hs
+  simp only [step, emptyPc, pubPc] at hs
   repeat' (split at hs)
   all_goals (try simp at hs)
   all_goals (try contradiction)
@@ -162,7 +173,7 @@ set_option maxHeartbeats 4000000 in
 theorem qinv_step_casHigh (s s' : St) (f a b c ok : _) (hk : s.kind ≠ .bounded) (hq : QInv s) (hs : step s (.casHigh f a b c ok) = some s') : QInv s' := by
   have hQ := hq
   obtain ⟨q1, q2, q3, q4, q5, q6, q7, q8, q9, q10, q11, q12, q13, q14, q15, q16, q17, q18, q19, q20⟩ := hq
-  simp only [step] at hs
+  simp only [step, emptyPc, pubPc] at hs
   repeat' (split at hs)
   all_goals (try simp at hs)
   all_goals (try contradiction)
@@ -173,7 +184,7 @@ set_option maxHeartbeats 4000000 in
 theorem qinv_step_wBuf (s s' : St) (f i x : _) (hk : s.kind ≠ .bounded) (hq : QInv s) (hs : step s (.wBuf f i x) = some s') : QInv s' := by
   have hQ := hq
   obtain ⟨q1, q2, q3, q4, q5, q6, q7, q8, q9, q10, q11, q12, q13, q14, q15, q16, q17, q18, q19, q20⟩ := hq
-  simp only [step] at hs
+  simp only [step, emptyPc, pubPc] at hs
   repeat' (split at hs)
   all_goals (try simp at hs)
   all_goals (try contradiction)
@@ -184,7 +195,7 @@ set_option maxHeartbeats 4000000 in
 theorem qinv_step_stLow (s s' : St) (f l : _) (hk : s.kind ≠ .bounded) (hq : QInv s) (hs : step s (.stLow f l) = some s') : QInv s' := by
   have hQ := hq
   obtain ⟨q1, q2, q3, q4, q5, q6, q7, q8, q9, q10, q11, q12, q13, q14, q15, q16, q17, q18, q19, q20⟩ := hq
-  simp only [step] at hs
+  simp only [step, emptyPc, pubPc] at hs
   repeat' (split at hs)
   all_goals (try simp at hs)
   all_goals (try contradiction)
@@ -195,7 +206,7 @@ set_option maxHeartbeats 4000000 in
 theorem qinv_step_wNext (s s' : St) (f n x : _) (hk : s.kind ≠ .bounded) (hq : QInv s) (hs : step s (.wNext f n x) = some s') : QInv s' := by
   have hQ := hq
   obtain ⟨q1, q2, q3, q4, q5, q6, q7, q8, q9, q10, q11, q12, q13, q14, q15, q16, q17, q18, q19, q20⟩ := hq
-  simp only [step] at hs
+  simp only [step, emptyPc, pubPc] at hs
   repeat' (split at hs)
   all_goals (try simp at hs)
   all_goals (try contradiction)
@@ -206,7 +217,7 @@ set_option maxHeartbeats 4000000 in
 theorem qinv_step_ldTail (s s' : St) (f t : _) (hk : s.kind ≠ .bounded) (hq : QInv s) (hs : step s (.ldTail f t) = some s') : QInv s' := by
   have hQ := hq
   obtain ⟨q1, q2, q3, q4, q5, q6, q7, q8, q9, q10, q11, q12, q13, q14, q15, q16, q17, q18, q19, q20⟩ := hq
-  simp only [step] at hs
+  simp only [step, emptyPc, pubPc] at hs
   repeat' (split at hs)
   all_goals (try simp at hs)
   all_goals (try contradiction)
@@ -217,7 +228,7 @@ set_option maxHeartbeats 4000000 in
 theorem qinv_step_rHead (s s' : St) (f h : _) (hk : s.kind ≠ .bounded) (hq : QInv s) (hs : step s (.rHead f h) = some s') : QInv s' := by
   have hQ := hq
   obtain ⟨q1, q2, q3, q4, q5, q6, q7, q8, q9, q10, q11, q12, q13, q14, q15, q16, q17, q18, q19, q20⟩ := hq
-  simp only [step] at hs
+  simp only [step, emptyPc, pubPc] at hs
   repeat' (split at hs)
   all_goals (try simp at hs)
   all_goals (try contradiction)
@@ -228,7 +239,7 @@ set_option maxHeartbeats 4000000 in
 theorem qinv_step_rData (s s' : St) (f n d : _) (hk : s.kind ≠ .bounded) (hq : QInv s) (hs : step s (.rData f n d) = some s') : QInv s' := by
   have hQ := hq
   obtain ⟨q1, q2, q3, q4, q5, q6, q7, q8, q9, q10, q11, q12, q13, q14, q15, q16, q17, q18, q19, q20⟩ := hq
-  simp only [step] at hs
+  simp only [step, emptyPc, pubPc] at hs
   repeat' (split at hs)
   all_goals (try simp at hs)
   all_goals (try contradiction)
@@ -247,7 +258,7 @@ theorem qinv_step_rNext (s s' : St) (f n x : Nat) (hk : s.kind ≠ .bounded) (hq
     (hs : step s (.rNext f n x) = some s') : QInv s' := by
   have hQ := hq
   obtain ⟨q1, q2, q3, q4, q5, q6, q7, q8, q9, q10, q11, q12, q13, q14, q15, q16, q17, q18, q19, q20⟩ := hq
-  simp only [step] at hs
+  simp only [step, emptyPc, pubPc] at hs
   split at hs
   · simp at hs
   split at hs
@@ -256,9 +267,11 @@ theorem qinv_step_rNext (s s' : St) (f n x : Nat) (hk : s.kind ≠ .bounded) (hq
     · rename_i hc
       obtain ⟨hn, hx⟩ := hc
       have hh := hQ.rGotHead_eq f h hpc
-      split at hs <;> simp at hs <;> subst hs
-      · constructor <;> cq_close
-      · rename_i hne
+      split at hs
+      · repeat' (split at hs)
+        all_goals (simp at hs; subst hs; constructor <;> cq_close)
+      · simp at hs; subst hs
+        rename_i hne
         obtain ⟨hlt, hxe⟩ := headNext_ne_zero hQ hx hne
         constructor
         case rGotNext_eq =>
@@ -277,7 +290,7 @@ theorem qinv_step_wHead (s s' : St) (f x : Nat) (hk : s.kind ≠ .bounded) (hq :
     (hs : step s (.wHead f x) = some s') : QInv s' := by
   have hQ := hq
   obtain ⟨q1, q2, q3, q4, q5, q6, q7, q8, q9, q10, q11, q12, q13, q14, q15, q16, q17, q18, q19, q20⟩ := hq
-  simp only [step] at hs
+  simp only [step, emptyPc, pubPc] at hs
   split at hs
   · simp at hs
   split at hs
@@ -343,7 +356,7 @@ theorem qinv_step_wData (s s' : St) (f n d : Nat) (hk : s.kind ≠ .bounded) (hq
     (hs : step s (.wData f n d) = some s') : QInv s' := by
   have hQ := hq
   obtain ⟨q1, q2, q3, q4, q5, q6, q7, q8, q9, q10, q11, q12, q13, q14, q15, q16, q17, q18, q19, q20⟩ := hq
-  simp only [step] at hs
+  simp only [step, emptyPc, pubPc] at hs
   split at hs
   · simp at hs
   split at hs
@@ -624,7 +637,7 @@ theorem qinv_push (s : St) (f v prev : Nat) (hq : QInv s) (hpend : (s.pc f).pend
 
 theorem qinv_step_xchgTail (s s' : St) (f o n : Nat) (hk : s.kind ≠ .bounded) (hq : QInv s)
     (hs : step s (.xchgTail f o n) = some s') : QInv s' := by
-  simp only [step] at hs
+  simp only [step, emptyPc, pubPc] at hs
   split at hs
   · simp at hs
   split at hs
@@ -636,7 +649,7 @@ theorem qinv_step_xchgTail (s s' : St) (f o n : Nat) (hk : s.kind ≠ .bounded) 
 
 theorem qinv_step_stTail (s s' : St) (f n : Nat) (hk : s.kind ≠ .bounded) (hq : QInv s)
     (hs : step s (.stTail f n) = some s') : QInv s' := by
-  simp only [step] at hs
+  simp only [step, emptyPc, pubPc] at hs
   split at hs
   · simp at hs
   split at hs
@@ -668,6 +681,7 @@ theorem qinv_step (s s' : St) (e : Ev) (hk : s.kind ≠ .bounded) (hq : QInv s) 
   | woke f r => exact qinv_step_woke s s' f r hk hq hs
   | retSend f => exact qinv_step_retSend s s' f hk hq hs
   | callRecv f => exact qinv_step_callRecv s s' f hk hq hs
+  | callTry f => exact qinv_step_callTry s s' f hk hq hs
   | retRecv f v => exact qinv_step_retRecv s s' f v hk hq hs
   | ldLow f l => exact qinv_step_ldLow s s' f l hk hq hs
   | ldHigh f h => exact qinv_step_ldHigh s s' f h hk hq hs
@@ -685,7 +699,7 @@ theorem qinv_step (s s' : St) (e : Ev) (hk : s.kind ≠ .bounded) (hq : QInv s) 
   | rData f n d => exact qinv_step_rData s s' f n d hk hq hs
   | wData f n d => exact qinv_step_wData s s' f n d hk hq hs
 
-/-- the kind and capacity of a channel never change -/
+/-- the kind, capacity and creation mode of a channel never change -/
 theorem kind_step (s s' : St) (e : Ev) (hs : step s e = some s') : s'.kind = s.kind ∧ s'.cap = s.cap := by
   cases e with
   | p pe =>
@@ -697,17 +711,33 @@ theorem kind_step (s s' : St) (e : Ev) (hs : step s e = some s') : s'.kind = s.k
     all_goals (try contradiction)
     all_goals (first | (subst hs; exact ⟨rfl, rfl⟩) | (obtain ⟨_, hs⟩ := hs; subst hs; exact ⟨rfl, rfl⟩))
 
-theorem kind_of_run {k : Kind} {cap : Nat} {es : List Ev} {s : St} (h : (sys k cap).run es = some s) :
-    s.kind = k ∧ s.cap = cap :=
-  Sys.inv_of_run (sys k cap) (fun s => s.kind = k ∧ s.cap = cap) ⟨rfl, rfl⟩
+theorem spin_step (s s' : St) (e : Ev) (hs : step s e = some s') : s'.spin = s.spin := by
+  cases e with
+  | p pe =>
+    rcases proto_shape s s' pe hs with ⟨p', rfl⟩ | ⟨p', X, rfl, _⟩ <;> rfl
+  | _ =>
+    simp only [step] at hs
+    all_goals (repeat' (split at hs))
+    all_goals (try simp at hs)
+    all_goals (try contradiction)
+    all_goals (first | (subst hs; rfl) | (obtain ⟨_, hs⟩ := hs; subst hs; rfl))
+
+theorem kind_of_run {spin : Bool} {k : Kind} {cap : Nat} {es : List Ev} {s : St}
+    (h : (sysM spin k cap).run es = some s) : s.kind = k ∧ s.cap = cap :=
+  Sys.inv_of_run (sysM spin k cap) (fun s => s.kind = k ∧ s.cap = cap) ⟨rfl, rfl⟩
     (fun s e s' hi hs => by
       obtain ⟨a, b⟩ := kind_step s s' e hs
       exact ⟨a.trans hi.1, b.trans hi.2⟩) h
 
-theorem qinv_of_run {k : Kind} {cap : Nat} (hk : k ≠ .bounded) {es : List Ev} {s : St}
-    (h : (sys k cap).run es = some s) : QInv s := by
+theorem spin_of_run {spin : Bool} {k : Kind} {cap : Nat} {es : List Ev} {s : St}
+    (h : (sysM spin k cap).run es = some s) : s.spin = spin :=
+  Sys.inv_of_run (sysM spin k cap) (fun s => s.spin = spin) rfl
+    (fun s e s' hi hs => (spin_step s s' e hs).trans hi) h
+
+theorem qinv_of_run {spin : Bool} {k : Kind} {cap : Nat} (hk : k ≠ .bounded) {es : List Ev} {s : St}
+    (h : (sysM spin k cap).run es = some s) : QInv s := by
   have : s.kind = k ∧ QInv s :=
-    Sys.inv_of_run (sys k cap) (fun s => s.kind = k ∧ QInv s) ⟨rfl, qinv_init k cap⟩
+    Sys.inv_of_run (sysM spin k cap) (fun s => s.kind = k ∧ QInv s) ⟨rfl, qinv_initM spin k cap⟩
       (fun s e s' hi hs => ⟨(kind_step s s' e hs).1.trans hi.1,
         qinv_step s s' e (by rw [hi.1]; exact hk) hi.2 hs⟩) h
   exact this.2
